@@ -11,13 +11,13 @@ import (
 // closure's element parameter is read as "an element of that slice" and the call's result as
 // depending on the closure's results.
 var hofSlice = map[string][2]int{ // callee -> (index of the slice argument, index of the function argument)
-	"slices.ContainsFunc": {0, 1},
-	"slices.IndexFunc":    {0, 1},
-	"slices.DeleteFunc":   {0, 1},
-	"slices.SortFunc":     {0, 1},
-	"slices.SortStableFunc": {0, 1},
+	"slices.ContainsFunc":     {0, 1},
+	"slices.IndexFunc":        {0, 1},
+	"slices.DeleteFunc":       {0, 1},
+	"slices.SortFunc":         {0, 1},
+	"slices.SortStableFunc":   {0, 1},
 	"slices.BinarySearchFunc": {0, 2},
-	"sort.Slice":          {0, 1},
+	"sort.Slice":              {0, 1},
 }
 
 // hofCallOf: the call of a slice higher-order function that receives closure fn as its function argument.
